@@ -85,7 +85,7 @@ def splitmixNext (s : UInt64) : UInt64 × UInt64 :=
 def countAcc (exp : Float → Float) (cur cand t : Float) : Nat → UInt64 → Nat → Nat
   | 0, _, acc => acc
   | n + 1, s, acc =>
-    if cand < cur then countAcc exp cur cand t n s (acc + 1)
+    if cand ≤ cur then countAcc exp cur cand t n s (acc + 1)
     else
       let (s', w) := splitmixNext s
       let a := accepts exp cur cand t (unitOfWord w.toNat)
@@ -114,7 +114,7 @@ def freqCase (args : List Sexp) (implOut : Sexp) : Option Verdict := do
     let s0 := splitmixNew seed.toUInt64
     let lo := countAcc expDown cur cand t n s0 0
     let hi := countAcc expUp cur cand t n s0 0
-    let usedM := if cand < cur then 0 else n
+    let usedM := if cand ≤ cur then 0 else n
     let agree := lo ≤ acc && acc ≤ hi && bad == 0 && used == usedM
     pure { agree, holds, cls := if holds then "-" else "frequency",
            model := .list [.atom "acc", Sexp.ofNat (countAcc Float.exp cur cand t n s0 0), model] }
